@@ -593,15 +593,33 @@ func (s *Sim) canon(v reflect.Value) string {
 	return "?"
 }
 
-// PoolGet replaces (*sync.Pool).Get. What a pool returns depends on garbage collection and on earlier
-// runs in the same process; code that branches on the capacity of a recycled object would make the
-// run irreproducible. Inside a simulation a pool therefore never recycles (always New), which the
-// sync.Pool contract allows.
+// PoolGet replaces (*sync.Pool).Get. What a real pool returns depends on garbage collection, on the P the
+// caller runs on and on earlier runs in the same process, which would make a run irreproducible. Inside a
+// simulation every pool therefore has a per-run shadow: Put pushes onto it, and Get - when the shadow is
+// not empty - lets the tape decide between handing back the most recently put object and a fresh one
+// (both are within the sync.Pool contract). Recycling is thus explored deterministically: code that
+// returns an object to a pool while somebody still refers to it gets it handed out again.
 //
 //go:norace
 func PoolGet(p *sync.Pool) any {
-	if active.Load() == nil {
+	s := active.Load()
+	if s == nil {
 		return p.Get()
+	}
+	g := getg()
+	if !s.aborting.Load() && (g == s.rootG || s.curG.Load() == g) {
+		s.lock()
+		sh := s.pools.get(up(unsafe.Pointer(p)))
+		var x any
+		if sh != nil && len(sh.items) > 0 && s.Tape.Draw(StEnv, 2) == 1 {
+			x = sh.items[len(sh.items)-1]
+			sh.items = sh.items[:len(sh.items)-1]
+		}
+		s.unlock()
+		if x != nil {
+			raceAcquire(unsafe.Pointer(sh)) // what the real pool guarantees: Put happens before the Get that returns the object
+			return x
+		}
 	}
 	if p.New != nil {
 		return p.New()
@@ -613,7 +631,27 @@ func PoolGet(p *sync.Pool) any {
 //
 //go:norace
 func PoolPut(p *sync.Pool, x any) {
-	if active.Load() == nil {
+	s := active.Load()
+	if s == nil {
 		p.Put(x)
+		return
+	}
+	g := getg()
+	if x == nil || s.aborting.Load() || !(g == s.rootG || s.curG.Load() == g) {
+		return // dropped (allowed): uncontrolled goroutine or a run being torn down
+	}
+	s.lock()
+	sh := s.pools.get(up(unsafe.Pointer(p)))
+	if sh == nil {
+		sh = &shadowPool{}
+		s.pools.put(up(unsafe.Pointer(p)), sh)
+	}
+	keep := len(sh.items) < 8
+	if keep {
+		sh.items = append(sh.items, x)
+	}
+	s.unlock()
+	if keep {
+		raceReleaseMerge(unsafe.Pointer(sh))
 	}
 }
